@@ -568,7 +568,8 @@ TCempty ==
     /\ IsEv("cempty")
     /\ LET c == Rec[l].c
            settled == /\ Has(w.cq, c) /\ ~w.cq[c].unsure /\ ~w.cq[c].tx
-                      /\ Has(st.cdropat, c) /\ st.cdropat[c] < st.ioev
+                      \* (two records later: a "seal" record can come from inside the very dispatch)
+                      /\ Has(st.cdropat, c) /\ st.cdropat[c] + 1 < st.ioev
                       /\ Seen("c:" \o c) >= Len(w.cq[c].q)
        IN Step(<< <<"C11:disconnected", ~settled>> >>)
     /\ UNCHANGED <<w, ops, st, seen>>
